@@ -4,3 +4,4 @@ import Generated.Vartype
 import Generated.AbcSubst
 import Generated.Gates
 import Generated.VarsRules
+import Generated.SampleArray
